@@ -145,6 +145,7 @@ for d in sorted(glob.glob('/verif/seeded/*')):
     m=json.load(open(mp))
     verdict='caught' if m.get('detected') else 'MISSED (exit %s)'%m.get('check_exit')
     if m.get('applies_to_head') is False: verdict='superseded (see note)'
+    if m.get('confirmed') is False: verdict='not a regression on HEAD (see note)'
     if m.get('detected') and m.get('detected_by') and m.get('detected_by')!=m.get('breaks_property'): verdict='caught by the %s check'%m['detected_by']
     out.append('| %s | %s | %s | %s | %s |'%(m.get('id',os.path.basename(d)),m.get('breaks_property','?'),m.get('needs_to_manifest',''),
         verdict, '; '.join(m.get('violations_reported',[]))[:160]))
